@@ -101,8 +101,24 @@ def _validate(ctx, module, chunks, jobs, boundary):
     return stats
 
 
+def _detect_fixes():
+    """The proposed patches notes/C03-fix-1.diff and -3.diff change which symmetries the classes keep; the
+    specification has both variants (Symmetries!UadbFixApplied, InterpSquareFixApplied), selected by an
+    environment variable that is set iff the patched lines are present in the source tree under test."""
+    def has(path, text):
+        try:
+            return text in open(os.path.join(lib.REPO, path)).read()
+        except OSError:
+            return False
+    if has("src/recon_buildblock/ProjMatrixByBinUsingRayTracing.cxx", "use_actual_detector_boundaries is incompatible with the"):
+        os.environ["C03_UADB_FIXED"] = "1"
+    if has("src/recon_buildblock/ProjMatrixByBinUsingInterpolation.cxx", "Disabling the 90degrees_min_phi symmetry"):
+        os.environ["C03_INTERP_SQUARE_FIXED"] = "1"
+
+
 def run(ctx):
     q = ctx.quick
+    _detect_fixes()
     env = {"VERIF_SEED": str(ctx.seed)}
     jobs = 4 if q else 8
     if ctx.replay:
